@@ -40,17 +40,23 @@ static void sI_s16(const int *d, vcase *c)   /* orders 12 and 16, generated patt
 #define FAM_S16(np) { "orders 12 and 16: 8 structured + generated patterns x {NODROP,BASIC} x {NATURAL,COLAMD,MMD_AT+A} x tune{default,(2,4,4..),(3,8,2..)} x type4 x SymmetricMode2", 7, { np, 2, 2, 3, 3, 4, 2 }, sI_s16 }
 #define FAM_Z4 { "tiny entries dropped, Equil off: ALL(4) x {V4,V5,V7} x BASIC tol{1e-4,.5} x {NATURAL,COLAMD} x tune{(2,1,2..),default,1-col} x type4", 6, { N_ALL4, 3, 2, 2, 3, 4 }, sI_z4 }
 #define FAM_Z6 { "tiny entries dropped, Equil off: DEV_1(BASE(6)) x {V4,V5,V7} x BASIC tol{1e-4,.5} x {NATURAL,COLAMD} x tune3 x milu{SILU,SMILU_2} x type4", 8, { 9, 37, 3, 2, 2, 3, 2, 4 }, sI_z6 }
+/* the tiny-entry families with ILU_FillFactor = 1: the growable arrays start at exactly nnz(A) entries, so growth requests fall into the fill-in block of an
+   emptied column (the four arrays fill at different moments as soon as a supernode has several columns) */
+static void sI_z4f(const int *d, vcase *c) { sI_z4(d, c); set_opts_digits(c, 1, d[2], 1, 0, 0, 0); }
+static void sI_z6f(const int *d, vcase *c) { sI_z6(d, c); set_opts_digits(c, 1, d[3], 1, 0, d[6], 0); }
+#define FAM_Z4F { "tiny entries dropped, Equil off, fill factor 1: ALL(4) x {V4,V5,V7} x BASIC tol{1e-4,.5} x {NATURAL,COLAMD} x tune{(2,1,2..),default,1-col} x type4", 6, { N_ALL4, 3, 2, 2, 3, 4 }, sI_z4f }
+#define FAM_Z6F { "tiny entries dropped, Equil off, fill factor 1: DEV_1(BASE(6)) x {V4,V5,V7} x BASIC tol{1e-4,.5} x {NATURAL,COLAMD} x tune3 x milu{SILU,SMILU_2} x type4", 8, { 9, 37, 3, 2, 2, 3, 2, 4 }, sI_z6f }
 static const family FIQ[] = {
     { "ALL(1..3) x vals{V1,V0,V4,V5} x drop{NODROP,BASIC,BASIC|AREA,BASIC|PROWS} x tol{1e-4,.5} x fill{10,1} x norm{inf,1} x milu{SILU,SMILU_2} x rowperm{none,MC64} x trans{N,T} x colperm{NAT,COLAMD} x tune{default,(2,1,2..)} x type4", 12, { N_ALL123, 4, 4, 2, 2, 2, 2, 2, 2, 2, 2, 4 }, sI_a },
     { "DEV_1(BASE(6)) first 5 deviations x vals2 x drop4 x tol2 x fill2 x norm2 x milu2 x rowperm2 x trans{N,T} x colperm2 x tune2 x type4", 13, { 9, 5, 2, 4, 2, 2, 2, 2, 2, 2, 2, 2, 4 }, sI_b },
     { "modified-ILU cancellation (dropped mass = minus every pivot candidate): {n=4 all patterns with full diagonal, n=5 upper triangular} x vals{13,14} x BASIC tol .5 x norm3 x milu4 x {NATURAL,COLAMD} x tune{1-col,(2,1,2..),default} x type4", 7, { 5120, 2, 3, 4, 2, 3, 4 }, sI_m },
-    FAM_Z4, FAM_Z6, FAM_SYM(13), FAM_S16(8 + 60),
+    FAM_Z4, FAM_Z6, FAM_SYM(13), FAM_S16(8 + 60), FAM_Z4F, FAM_Z6F,
 };
 static const family FIT[] = {
     { "ALL(1..3) x vals5 x drop7 x tol3 x fill3 x norm3 x milu4 x rowperm2 x trans3 x colperm3 x tune3 x type4", 12, { N_ALL123, 5, 7, 3, 3, 3, 4, 2, 3, 3, 3, 4 }, sI_a },
     { "DEV_1(BASE(6)) first 12 deviations x vals2 x drop7 x tol3 x fill3 x norm3 x milu4 x rowperm2 x trans3 x colperm3 x tune3 x {d,z}", 13, { 9, 12, 2, 7, 3, 3, 3, 4, 2, 3, 3, 3, 2 }, sI_b },
     { "modified-ILU cancellation (dropped mass = minus every pivot candidate): {n=4 all patterns with full diagonal, n=5 upper triangular} x vals{13,14} x BASIC tol .5 x norm3 x milu4 x {NATURAL,COLAMD} x tune{1-col,(2,1,2..),default} x type4", 7, { 5120, 2, 3, 4, 2, 3, 4 }, sI_m },
-    FAM_Z4, FAM_Z6, FAM_SYM(37), FAM_S16(8 + 600),
+    FAM_Z4, FAM_Z6, FAM_SYM(37), FAM_S16(8 + 600), FAM_Z4F, FAM_Z6F,
 };
 /* sanitizer build: the small-order families with the first values of every option list (out-of-bounds reads are only visible there: the ledger's own
    blocks are addressable beyond their end in the plain builds) */
@@ -62,9 +68,10 @@ static const family FIS[] = {
 static void sI_bt(const int *d, vcase *c) { int e[13]; memcpy(e, d, sizeof e); e[12] = d[12] ? TZ : TD; sI_b(e, c); }
 #define NF(F) ((int)(sizeof F / sizeof *F))
 #define SAN (!strncmp(wk_variant, "asan", 4))
-static long sz_I(int tier) { if (SAN) return fam_total(FIS, NF(FIS)); return tier ? fam_total(FIT, NF(FIT)) : fam_total(FIQ, NF(FIQ)); }
-static void dec_I(int tier, long idx, vcase *c) { if (SAN) { fam_decode(FIS, NF(FIS), idx, c); return; } if (tier) { fam_decode(FIT, NF(FIT), idx, c); if (c->fam == 1) { /* {d,z} */ c->type = (c->type == 0) ? TD : TZ; } } else fam_decode(FIQ, NF(FIQ), idx, c); }
-static void desc_I(int tier, char *b, size_t cap) { if (SAN) fam_describe(FIS, NF(FIS), b, cap); else if (tier) fam_describe(FIT, NF(FIT), b, cap); else fam_describe(FIQ, NF(FIQ), b, cap); }
+#define NFV(F) (NF(F) - (strcmp(wk_variant, "ref") ? 2 : 0))      /* the fill-factor-1 families (last two) run on the reference build only */
+static long sz_I(int tier) { if (SAN) return fam_total(FIS, NF(FIS)); return tier ? fam_total(FIT, NFV(FIT)) : fam_total(FIQ, NFV(FIQ)); }
+static void dec_I(int tier, long idx, vcase *c) { if (SAN) { fam_decode(FIS, NF(FIS), idx, c); return; } if (tier) { fam_decode(FIT, NFV(FIT), idx, c); if (c->fam == 1) { /* {d,z} */ c->type = (c->type == 0) ? TD : TZ; } } else fam_decode(FIQ, NFV(FIQ), idx, c); }
+static void desc_I(int tier, char *b, size_t cap) { if (SAN) fam_describe(FIS, NF(FIS), b, cap); else if (tier) fam_describe(FIT, NFV(FIT), b, cap); else fam_describe(FIQ, NFV(FIQ), b, cap); }
 
 /* everything a caller can observe of one xgsisx call, as a hash; fresh library blocks are pre-filled with `fill` */
 static uint64_t ilu_once(const vcase *c, int fill)
